@@ -14,6 +14,7 @@ import (
 	"os"
 	"reflect"
 	"sort"
+	"strings"
 	"syscall"
 
 	"github.com/cockroachdb/errors"
@@ -39,6 +40,10 @@ var Fam2Ty = map[string]string{}
 
 // Ty2Fam is the inverse of Fam2Ty.
 var Ty2Fam = map[string]string{}
+
+// DetailLits: literal detail texts of library wrappers in %+v entries
+// (catalogue name -> text), read from live sample renderings.
+var DetailLits = map[string]string{}
 
 // Sentinels: identity tag -> object.
 var Sentinels = map[string]error{}
@@ -184,6 +189,37 @@ func init() {
 	fl := errors.FlattenHints(errors.WithHint(errors.WithHint(base, "\x01"), "\x02"))
 	tok.RegisterLiteral("L_DashDash", fl[1:len(fl)-1])
 	tok.RegisterLiteral("L_NoDomain", string(errors.NoDomain))
+	// detail literals of the library's wrappers in %+v entries, from samples:
+	// "x\n(1) <detail>\nWraps: (2) x\nError types: ..."
+	detail := func(sample error) string {
+		out := fmt.Sprintf("%+v", sample)
+		i := strings.Index(out, "\n(1) ")
+		j := strings.Index(out, "\nWraps: (2)")
+		if i < 0 || j < 0 || j < i {
+			return ""
+		}
+		d := out[i+len("\n(1) ") : j]
+		if k := strings.IndexByte(d, '\n'); k >= 0 {
+			d = d[:k]
+		}
+		return d
+	}
+	stripDigits := func(s string) string {
+		return strings.TrimRight(s, "0123456789")
+	}
+	DetailLit := map[string]string{
+		"withStack":            detail(errors.WithStack(base)),
+		"withAssertionFailure": detail(errors.WithAssertionFailure(base)),
+		"withHTTPCode":         stripDigits(detail(exthttp.WrapWithHTTPCode(base, 404))),
+		"withGrpcCode":         stripDigits(detail(extgrpc.WrapWithGrpcCode(base, codes.NotFound))),
+		"withSecondaryError":   detail(errors.WithSecondaryError(base, base)),
+		"withMark":             detail(errors.Mark(base, base)),
+	}
+	for k, v := range DetailLit {
+		if v != "" {
+			DetailLits[k] = v
+		}
+	}
 	d := string(errors.NamedDomain("\x01")) // error domain: "\x01"
 	for i := 0; i < len(d); i++ {
 		if d[i] == '"' {
